@@ -549,6 +549,66 @@ class Layouts:
             raise Unknown("call " + ast.unparse(f))
         raise Unknown("expr " + type(node).__name__ + " " + " ".join(ast.unparse(node).split())[:50])
 
+    def _table_rows(self, node, env):
+        """[(element node, env)] of a list / tuple display, written in place or bound once to a module-level (or factory-local) name"""
+        if isinstance(node, (ast.List, ast.Tuple)):
+            return [(e, env) for e in node.elts]
+        if isinstance(node, ast.Name):
+            v = env.get_local(node.id)
+            if isinstance(v, tuple) and len(v) == 2 and isinstance(v[0], ast.AST) and isinstance(v[1], Env):
+                return self._table_rows(v[0], v[1])
+            r = self.prog.resolve(env.mod, node.id)
+            if r and r[0] == "assign" and isinstance(r[1], (ast.List, ast.Tuple)):
+                return [(e, Env(r[2])) for e in r[1].elts]
+        return None
+
+    def _expand_args(self, A, env):
+        """positional arguments with `*TABLE` and `*(E for a, b in TABLE)` written out (declaration order is field order)"""
+        out = []
+        for a in A:
+            if not isinstance(a, ast.Starred):
+                out.append((a, env))
+                continue
+            v = a.value
+            rows = self._table_rows(v, env)
+            if rows is not None:
+                out += rows
+                continue
+            if isinstance(v, (ast.GeneratorExp, ast.ListComp)) and len(v.generators) == 1 and not v.generators[0].ifs:
+                g = v.generators[0]
+                rows = self._table_rows(g.iter, env)
+                if rows is not None:
+                    from .loader import clone as _cl
+                    ok = True
+                    for row, env_r in rows:
+                        if isinstance(g.target, ast.Name):
+                            binds = {g.target.id: row}
+                        elif isinstance(g.target, (ast.Tuple, ast.List)) and isinstance(row, (ast.Tuple, ast.List)) and len(row.elts) == len(g.target.elts) \
+                                and all(isinstance(t_, ast.Name) for t_ in g.target.elts):
+                            binds = {t_.id: e_ for t_, e_ in zip(g.target.elts, row.elts)}
+                        else:
+                            ok = False
+                            break
+
+                        class S(ast.NodeTransformer):
+                            def visit_Name(self, nd):
+                                if isinstance(nd.ctx, ast.Load) and nd.id in binds:
+                                    return ast.copy_location(_cl(binds[nd.id]), nd)
+                                return nd
+
+                        el = S().visit(_cl(v.elt))
+                        ast.copy_location(el, v.elt)
+                        ast.fix_missing_locations(el)
+                        for par_ in ast.walk(el):
+                            for ch_ in ast.iter_child_nodes(par_):
+                                ch_._parent = par_
+                        el._parent = a  # keeps the way up to the module for the describer
+                        out.append((el, env_r if env_r.mod is env.mod else env))
+                    if ok:
+                        continue
+            raise Unknown("expr Starred " + " ".join(ast.unparse(a).split())[:50])
+        return out
+
     def builtin(self, n, call, env, depth):
         A = call.args
         kw = {k.arg: k.value for k in call.keywords if k.arg}
@@ -558,8 +618,8 @@ class Layouts:
 
         if n == "Struct":
             fields = []
-            for a in A:
-                r = self.eval_con(a, env, depth + 1)
+            for a, env_a in self._expand_args(A, env):
+                r = self.eval_con(a, env_a, depth + 1)
                 fields.append((r[1], r[2]) if isinstance(r, tuple) else (None, r))
             for k in call.keywords:
                 # Struct(name=subcon, ...) declares the same fields as "name" / subcon, in keyword order
